@@ -403,6 +403,89 @@ func hasReaderParam(fn *types.Func) bool {
 	return false
 }
 
+// samplerCall models an uncontracted function that takes an io.Reader: its results are a deterministic function of the
+// other arguments and of the reader's state s0 = shk(reader) (so they are tied to THAT reader at THAT position: the
+// ghost predicate drawn(result, s0) records it), and the reader moves to a later state of the same stream.
+func (fc *FuncCtx) samplerCall(st *State, fn *types.Func, name string, recv *Val, args []Val, ts []*Term, resT types.Type) (Val, bool) {
+	if _, ok := fc.eng.contracts.GhostFields["shk"]; !ok || fc.inSpec {
+		return Val{}, false
+	}
+	if _, ok := fc.eng.contracts.Ghosts["drawn"]; !ok {
+		return Val{}, false
+	}
+	sig := fn.Type().(*types.Signature)
+	isReader := func(t types.Type) bool {
+		x := t.String()
+		return x == "io.Reader" || strings.HasSuffix(x, "/io.Reader") || strings.HasSuffix(x, ".CSPRNG")
+	}
+	ri := -1
+	for i := 0; i < sig.Params().Len() && i < len(args); i++ {
+		if isReader(sig.Params().At(i).Type()) {
+			ri = i
+			break
+		}
+	}
+	if ri < 0 || args[ri].T == nil || args[ri].T.Sort.Kind != "V" {
+		return Val{}, false
+	}
+	rdr := args[ri].T
+	arr := fc.heapArr(st, "GF$shk", SV)
+	s0 := Select(arr, rdr)
+	// argument list with the reader replaced by its state
+	var ts2 []*Term
+	off := 0
+	if recv != nil && recv.T != nil {
+		off = 1
+	}
+	replaced := false
+	for i, t := range ts {
+		if !replaced && i >= off && t == rdr {
+			ts2 = append(ts2, s0)
+			replaced = true
+			continue
+		}
+		ts2 = append(ts2, t)
+	}
+	if !replaced {
+		ts2 = append(ts2, s0)
+	}
+	var sg []string
+	for _, a := range ts2 {
+		sg = append(sg, sortTag(a.Sort))
+	}
+	mk := func(t types.Type, i int) Val {
+		so := fc.sortOf(t)
+		r := fc.nameTerm(st, "smp", App(fmt.Sprintf("smp$%s#%d$%s>%s", name, i, strings.Join(sg, "."), sortTag(so)), so, ts2...))
+		st.assume(fc.typeFacts(r, t))
+		fc.assumeTypeInv(st, r, t)
+		if t.String() != "error" {
+			st.assume(App("g$drawn", SBool, fc.coerceTerm(r, SV), s0))
+		} else {
+			fc.externalErrNoBlame(st, fn, r, t)
+		}
+		return Val{T: r, Typ: t}
+	}
+	s1 := fc.nameTerm(st, "rdst", App("smpnext$"+name+"$"+strings.Join(sg, "."), SV, ts2...))
+	st.heap["GF$shk"] = fc.nameTerm(st, "GF$shk", Store(arr, rdr, s1))
+	st.assume(Eq(App("g$streamOf", SV, s1), App("g$streamOf", SV, s0)))
+	st.assume(Ge(App("g$rpos", SInt, s1), App("g$rpos", SInt, s0)))
+	fc.note("sampler (takes io.Reader) modelled as a deterministic function of its arguments and the reader state, advancing the reader: " + name)
+	if resT == nil {
+		return Val{}, true
+	}
+	if tup, ok := resT.(*types.Tuple); ok {
+		if tup.Len() == 0 {
+			return Val{}, true
+		}
+		var vs []Val
+		for i := 0; i < tup.Len(); i++ {
+			vs = append(vs, mk(tup.At(i).Type(), i))
+		}
+		return Val{Tuple: vs}, true
+	}
+	return mk(resT, 0), true
+}
+
 func (fc *FuncCtx) ufName(fn *types.Func, recv *Val) string {
 	pp, k := funcKeyOf(fn)
 	sig := fn.Type().(*types.Signature)
@@ -484,6 +567,9 @@ func (fc *FuncCtx) defaultCall(st *State, fn *types.Func, recv *Val, args []Val,
 		havocLoc(*recv)
 	}
 	if fresh {
+		if v, ok := fc.samplerCall(st, fn, name, recv, args, ts, resT); ok {
+			return v
+		}
 		fc.note("sampler (takes io.Reader): result is a fresh unconstrained value: " + name)
 		return fc.havocResult(st, resT, "rnd")
 	}
